@@ -73,7 +73,7 @@ def run_shard(desc, R, tier):
     else:
         _, N, cplx, half = desc
         fam = (A.gen_cplx(N) + A.tones_cplx(N)) if cplx else (A.gen_real(N) + A.tones_real(N) + A.pcm(N) + A.pcm64(N))
-        fam = fam + A.scaled(fam) + A.strided(fam)
+        fam = fam + A.scaled(fam) + A.strided(fam) + A.extreme(fam)
         for i, (name, x) in enumerate(fam):
             if i % 2 == half:
                 eval_point({'x': x, 'name': name}, R)
